@@ -21,6 +21,10 @@ use sudachi::dic::word_id::WordId;
 pub struct Case {
     pub dic: DicModel,
     pub texts: Vec<Vec<Piece>>,
+    /// an extra matrix line whose coordinates lie outside the declared size: the compiler may
+    /// reject it, but if it accepts, no cell may change
+    #[serde(default)]
+    pub stray_line: Option<(i32, i32, i16)>,
 }
 
 pub struct C05;
@@ -155,7 +159,18 @@ impl Property for C05 {
         dp.square_only = false;
         dp.max_dim = tier.pick(5, 12);
         dp.max_base = tier.pick(8, 20);
-        (dic_model(dp), vec(pieces(8), 1..=3)).prop_map(|(dic, texts)| Case { dic, texts }).boxed()
+        (dic_model(dp), vec(pieces(8), 1..=3), prop::option::weighted(0.1, (0u8..4, 0i32..3, any::<i16>())))
+            .prop_map(|(dic, texts, stray)| {
+                let (nl, nr) = (dic.matrix.nl as i32, dic.matrix.nr as i32);
+                let stray_line = stray.map(|(k, d, c)| match k {
+                    0 => (nl + d, 0, c),
+                    1 => (0, nr + d, c),
+                    2 => (nl + d, nr + d, c),
+                    _ => (nl, nr - 1, c),
+                });
+                Case { dic, texts, stray_line }
+            })
+            .boxed()
     }
     fn cases_per_shard(&self, tier: Tier) -> u32 {
         tier.pick(1500, 30000)
@@ -170,6 +185,31 @@ impl Property for C05 {
     fn check(&self, case: &Case, ctx: &mut Ctx) -> Report {
         let mut rep = Report::default();
         let dic = &case.dic;
+        if let Some((l, r, c)) = case.stray_line {
+            let mtext = format!("{}{} {} {}\n", dic.matrix.render(), l, r, c);
+            match guarded(|| compile_system_text(&mtext, &render_csv(&dic.system))) {
+                Ok(Ok(bytes)) => {
+                    // accepted: every cell must still equal the in-range lines
+                    let dense = dic.matrix.dense();
+                    let ok = sudachi::dic::DictionaryLoader::read_system_dictionary(&bytes).ok().and_then(|l| l.grammar).map(|g| {
+                        let m = g.conn_matrix();
+                        (0..dic.matrix.nl).all(|a| (0..dic.matrix.nr).all(|b| m.cost(a, b) == dense[a as usize][b as usize]))
+                    });
+                    if ok != Some(true) {
+                        rep.fail("matrix-stray-line", format!("matrix {:?}: the line with out-of-range coordinates was accepted and changed another cell", mtext));
+                    }
+                    rep.class("stray matrix line accepted");
+                }
+                Ok(Err(_)) => {
+                    rep.class("stray matrix line rejected");
+                }
+                Err(p) => {
+                    rep.fail("matrix-stray-line-panic", format!("matrix {:?}: {}", mtext, p));
+                }
+            }
+            rep.nontrivial = true;
+            return rep;
+        }
         let compiled = match guarded(|| compile_model(dic)) {
             Ok(Ok(c)) => c,
             Ok(Err(e)) => {
